@@ -4,7 +4,6 @@ import (
 	"errors"
 	"fmt"
 	"math/rand"
-	"os"
 	"path/filepath"
 	"runtime"
 	"sort"
@@ -23,13 +22,13 @@ import (
 // rawEvent is what a goroutine records about one call; events are ordered by stamp afterwards
 // and only then given the specification's small ids (which must grow in that order).
 type rawEvent struct {
-	stamp int64
-	op    string
-	a     Label
-	r     string
-	ts    []*txrec
-	obs   obsRaw
-	feeub int
+	stamp      int64
+	op         string
+	a          Label
+	r          string
+	ts         []*txrec
+	obs        obsRaw
+	feeub      int
 	misordered bool
 }
 
@@ -312,5 +311,4 @@ func TestConcurrent(t *testing.T) {
 			t.Fatal(err)
 		}
 	}
-	_ = os.Getenv
 }
